@@ -377,6 +377,10 @@ ws_evhttp_read_cb(struct bufferevent *bufev, void *arg)
 			evws_force_disconnect_(evws);
 		}
 		evbuffer_drain(input, msg_len);
+		/* once the connection is closing (close frame, protocol error,
+		 * evws_close() from the callback) nothing more is delivered */
+		if (evws->closed)
+			break;
 	}
 
 bailout:
